@@ -410,6 +410,53 @@ def c08_rules(tier, seed):
     return run_rules("C08", tier, seed, fams, 300, RULE, ASSUME, write=False)
 
 
+def c19_history(verdict, tier, seed):
+    """C19 on the rule tables (TraceHistory.tla): a sample of call configurations - all real-FFT ones plus a stratified sample of every
+    family - is evaluated in two fresh processes that run the list in opposite orders; the reverse- and forward-mode matrices of every
+    configuration must be bit-identical in both (nothing a rule computes may be remembered across calls)"""
+    rng = random.Random(seed + 19)
+    quick = tier == "quick"
+    cfgs = []
+    st = tr = 0
+    for fam, (rq, rt, kinds) in FAMILIES.items():
+        if fam in ("kink", "single"):
+            continue
+        allc, r = enumerate_family(fam, rq, kinds)
+        st += r.distinct
+        tr += r.generated
+        if fam == "fft":
+            chosen = [c for c in allc if c["prim"].startswith(("rfft", "irfft")) and c["st"] in ("none", "ortho")]
+            chosen = stratified(chosen, 260 if quick else 1200, rng) + stratified(allc, 60, rng)
+        else:
+            chosen = stratified(allc, 40 if quick else 200, rng)
+        cfgs += [dict(c, dk=seed % 7) for c in chosen]
+    rng.shuffle(cfgs)
+    for i, c in enumerate(cfgs):
+        c["id"] = i + 1
+    a, _ = vlib.parallel_replay("rule_replay.py", cfgs, nproc=1, tag="hist-a")
+    b, _ = vlib.parallel_replay("rule_replay.py", cfgs[::-1], nproc=1, tag="hist-b")
+
+    def sig(o):
+        if o["status"] != "ok":
+            return o["status"].split(":")[0]
+        return "%s/%s" % (o["vjp"].get("digest") or o["vjp"].get("raised"), o["jvp"].get("digest") or o["jvp"].get("raised"))
+    sb = {o["id"]: sig(o) for o in b}
+    rows = [{"id": o["id"], "first": sig(o), "second": sb.get(o["id"], "missing")} for o in a]
+    d = vlib.subdir("judge-hist")
+    f = vlib.write_ndjson(os.path.join(d, "h.ndjson"), rows)
+    accepted, g2, d2, _w, _inv = vlib.parallel_validate("TraceHistory", [f], cfg="SPECIFICATION Spec\n", njvm=1)
+    by = {c["id"]: c for c in cfgs}
+    for r_ in rows:
+        same = r_["first"] == r_["second"]
+        if not vlib.reconcile("history row %d" % r_["id"], r_["id"] in accepted, same):
+            c = by[r_["id"]]
+            fc = facets(c)
+            fc["fails"] = ["history"]
+            verdict.violation(fc, {"reason": "the derivative matrices of this call depend on what was differentiated before it in the same process: "
+                                             "%s when the list is run forwards, %s when it is run backwards" % (r_["first"], r_["second"]), "cfg": c})
+    return {"states": st + d2, "transitions": tr + g2, "configurations_run_in_both_orders": len(rows), "accepted": len(accepted)}
+
+
 def c10_rules(tier, seed):
     """C10 per primitive configuration (Contract!Reusable): ONE VJP function applied to the whole cotangent basis, then to the first
     cotangent again - a later call that raises or answers differently means the rule keeps state in its closure; inputs stay intact"""
